@@ -93,7 +93,7 @@ template<int GK> Expect expectation(const Prog &p) {
         const Step &s = p->script[i]; \
         if (s.kind == ST_YIELD) { YIELD_STMT; idx++; } \
         else if (s.kind == ST_GATE_READY || s.kind == ST_GATE_THREAD || s.kind == ST_GATE_CONSUMER) { co_await *g->fut[gate]; gate++; } \
-        else if (s.kind == ST_THROW) throw val::TestExc(3); \
+        else if (s.kind == ST_THROW) { if (idx & 1) throw val::PlainExc{3}; throw val::TestExc(3); } /* (after an odd number of values: a type not derived from std::exception) */ \
         else co_return; \
     }
 inline cocls::generator<int> body_int(const Prog *p, Gates *g) {
@@ -222,6 +222,7 @@ cocls::async<void> consumer(const Prog *p, Gates *gates, Result *res) {
             }
         }
         catch (const val::TestExc &e) { code = 1000 + e.id; }
+        catch (const val::PlainExc &e) { code = 1000 + e.id; }
         catch (const cocls::no_more_values_exception &) { code = -7; }
         if (code == -50) break;
         if (code >= 0 && code < 1000) res->got.push_back(code);
@@ -276,6 +277,7 @@ void consumer_plain(const Prog *p, Gates *gates, Result *res) {
             }
         }
         catch (const val::TestExc &e) { code = 1000 + e.id; }
+        catch (const val::PlainExc &e) { code = 1000 + e.id; }
         catch (const cocls::no_more_values_exception &) { code = -7; }
         if (code >= 0 && code < 1000) res->got.push_back(code);
         else { res->end = code; ended = true; }
